@@ -30,14 +30,15 @@ VARIABLES sroc, sseq,        \* sender
           joined, rroc, sl,  \* receiver: joined?, its roc, highest sequence number
           gap,               \* packets dropped in a row
           npk, accepted, rejectedBad, beh, start, joinAt, tamperAt,
-          priorHere, prior   \* an earlier receiver watched packets 0..prior-1 and left before the join
-vars == <<sroc, sseq, joined, rroc, sl, gap, npk, accepted, rejectedBad, beh, start, joinAt, tamperAt, priorHere, prior>>
+          priorHere, prior,  \* an earlier receiver watched packets 0..prior-1 and left before the join
+          descAt             \* packets written before the receiver fetched the description (-1: not yet)
+vars == <<sroc, sseq, joined, rroc, sl, gap, npk, accepted, rejectedBad, beh, start, joinAt, tamperAt, priorHere, prior, descAt>>
 
 Init ==
   /\ start \in 0..(M - 1) /\ sseq = start /\ sroc = 0
   /\ joined = FALSE /\ rroc = 0 /\ sl = 0 /\ gap = 0 /\ npk = 0
   /\ accepted = 0 /\ rejectedBad = 0 /\ beh = "" /\ joinAt = 0 - 1 /\ tamperAt = 0 - 1
-  /\ priorHere \in BOOLEAN /\ prior = 0
+  /\ priorHere \in BOOLEAN /\ prior = 0 /\ descAt = 0 - 1
 
 \* RFC 3711 3.3.1
 Guess(seq) ==
@@ -48,16 +49,21 @@ Guess(seq) ==
 AdvanceSender == /\ sseq' = (sseq + 1) % M
                  /\ sroc' = IF sseq = M - 1 THEN sroc + 1 ELSE sroc
 
-Export == ToJson([start |-> start, join |-> joinAt, n |-> npk', tamper |-> tamperAt', prior |-> prior])
+Export == ToJson([start |-> start, join |-> joinAt, n |-> npk', tamper |-> tamperAt', prior |-> prior, desc |-> descAt])
 
 \* the earlier receiver leaves (the sender's index does not depend on who listens: the
 \* packets written while nobody listens still advance it)
 PriorLeave == /\ priorHere /\ npk > 0 /\ priorHere' = FALSE /\ prior' = npk
-              /\ UNCHANGED <<sroc, sseq, joined, rroc, sl, gap, npk, accepted, rejectedBad, beh, start, joinAt, tamperAt>>
+              /\ UNCHANGED <<sroc, sseq, joined, rroc, sl, gap, npk, accepted, rejectedBad, beh, start, joinAt, tamperAt, descAt>>
 
-\* the receiver joins: the key exchange hands it the sender's current ROC
-Join == /\ ~joined /\ ~priorHere /\ joined' = TRUE /\ rroc' = sroc /\ sl' = sseq /\ joinAt' = npk
-        /\ UNCHANGED <<sroc, sseq, gap, npk, accepted, rejectedBad, beh, start, tamperAt, priorHere, prior>>
+\* the receiver fetches the description (whose key-management data is a snapshot of that moment);
+\* the stream goes on before it sets its session up
+Describe == /\ ~joined /\ descAt < 0 /\ descAt' = npk
+            /\ UNCHANGED <<sroc, sseq, joined, rroc, sl, gap, npk, accepted, rejectedBad, beh, start, joinAt, tamperAt, priorHere, prior>>
+
+\* the receiver joins: the key exchange (the SETUP response) hands it the sender's current ROC
+Join == /\ ~joined /\ ~priorHere /\ descAt >= 0 /\ joined' = TRUE /\ rroc' = sroc /\ sl' = sseq /\ joinAt' = npk
+        /\ UNCHANGED <<sroc, sseq, gap, npk, accepted, rejectedBad, beh, start, tamperAt, priorHere, prior, descAt>>
 
 Deliver(tamper) ==
   /\ npk < MaxPackets
@@ -77,14 +83,14 @@ Deliver(tamper) ==
              ELSE /\ rejectedBad' = rejectedBad + (IF tamper THEN 0 ELSE 1)
                   /\ UNCHANGED <<accepted, rroc, sl>>
   /\ beh' = Export
-  /\ UNCHANGED <<joined, start, joinAt, priorHere, prior>>
+  /\ UNCHANGED <<joined, start, joinAt, priorHere, prior, descAt>>
 
 Drop == /\ npk < MaxPackets /\ gap < MaxGap
         /\ AdvanceSender /\ npk' = npk + 1 /\ gap' = gap + 1
-        /\ UNCHANGED <<joined, rroc, sl, accepted, rejectedBad, start, joinAt, tamperAt, priorHere, prior>>
+        /\ UNCHANGED <<joined, rroc, sl, accepted, rejectedBad, start, joinAt, tamperAt, priorHere, prior, descAt>>
         /\ beh' = Export
 
-Next == Join \/ PriorLeave \/ Deliver(FALSE) \/ Deliver(TRUE) \/ Drop
+Next == Join \/ Describe \/ PriorLeave \/ Deliver(FALSE) \/ Deliver(TRUE) \/ Drop
 Spec == Init /\ [][Next]_vars
 
 \* an in-sync receiver never refuses an authentic packet of its key
